@@ -112,7 +112,7 @@ def comparable_rows(scn, runs, ntimes):
 class C03(Prop):
     id = 'C03'
     quick_runs = 3000
-    thorough_runs = 30000
+    thorough_runs = 15000
     chunk = 8
     rule = ('one case = one generated world in the common feature set (reservoirs, cylindrical and curve tanks, H-W pipes, CV pipes, 1/3-point head pumps, power pumps, '
             'PRV/PSV/FCV/TCV, patterns, time / clock-time / tank-level / pressure controls, time and level rules, DD and PDD with global parameters; report step on the hydraulic grid; EPANET '
